@@ -123,6 +123,29 @@ def listener_point(item: Tuple[int, bool, int]) -> Tuple[Optional[str], str]:
     return None, f"listener:{'ingested' if cached else 'ignored'}"
 
 
+def in_flight_point(item: Tuple[int, int, int]) -> Tuple[Optional[str], str]:
+    """Two datagrams in flight at once - what the listener does with a truncated query: the first is constructed (header and
+    questions read) and put aside unread, the second is constructed and perhaps read, and only then are the records of
+    the first read.  Each must still decode to what the strict parser reads in its own bytes."""
+    from zeroconf import DNSIncoming
+    ds = D.in_flight_set()
+    a, b, order = ds[item[0]], ds[item[1]], item[2]
+    ma = DNSIncoming(a)
+    mb = DNSIncoming(b)
+    if order == 0:
+        ma.answers(), mb.answers()
+    elif order == 1:
+        mb.answers(), ma.answers()
+    else:
+        mc_ = DNSIncoming(a)  # a third object for the first datagram's bytes, read at once
+        mc_.answers(), ma.answers(), mb.answers()
+    for which, msg, data in (("first", ma, a), ("second", mb, b)):
+        problem, oc = D.faithful(msg, data)
+        if problem:
+            return f"{which} of two datagrams in flight: {problem[:500]}", "in-flight:mismatch"
+    return None, "in-flight:agree"
+
+
 def run(tier: str, seed: int) -> Tuple[Stats, str, List[str], Dict[str, Any]]:
     install_seams()
     stats = Stats()
@@ -137,6 +160,17 @@ def run(tier: str, seed: int) -> Tuple[Stats, str, List[str], Dict[str, Any]]:
             stats.violations.append(Violation(f"C02 listener, {it[0]}-byte datagram (debug logging {it[1]}, source kind {it[2]}): "
                                               f"{problem}", {"listener_item": list(it)}, {"check": "listener"}))
     sizes["listener"] = len(items)
+    n_if = len(D.in_flight_set())
+    pairs = [(i, j, o) for i in range(n_if) for j in range(n_if) for o in (0, 1, 2)]
+    for it in pairs:
+        problem, oc = in_flight_point(it)
+        stats.executions += 1
+        stats.transitions += 1
+        stats.outcome(oc)
+        if problem and stats.room({"check": "in-flight"}, 25):
+            stats.violations.append(Violation(f"C02 datagrams #{it[0]} and #{it[1]} of the in-flight set (reading order {it[2]}): "
+                                              f"{problem}", {"in_flight_item": list(it)}, {"check": "in-flight"}))
+    sizes["in_flight_pairs"] = len(pairs)
     for name, space, dbg in spaces(tier):
         before = stats.executions
         enumerate_inputs(check_debug if dbg else check, space, stats, name, chunk=1024)
@@ -165,6 +199,13 @@ def replay(data: Dict[str, Any]) -> int:
     if "listener_item" in data:
         it = data["listener_item"]
         problem, oc = listener_point((int(it[0]), bool(it[1]), int(it[2])))
+        if problem:
+            print("VIOLATION reproduced:", problem)
+            return 1
+        print("no violation on this tree:", oc)
+        return 0
+    if "in_flight_item" in data:
+        problem, oc = in_flight_point(tuple(int(x) for x in data["in_flight_item"]))
         if problem:
             print("VIOLATION reproduced:", problem)
             return 1
